@@ -378,6 +378,18 @@ def _e_vine_from_dict(spec, rs, variant):
     return (lambda params: VineCopula.from_dict(params).to_dict()), (d,), {}, None
 
 
+def _roots_at_ends(spec, roots, lo, hi):
+    """Brackets one end of which already is the root, exactly (inverting a cdf at 0 or 1 on a
+    bracket that starts at the end of the support)."""
+    where = spec.get('root_at')
+    if where in ('lower', 'both'):
+        lo[0] = roots[0]
+        lo[2] = roots[2]
+    if where in ('upper', 'both'):
+        hi[1] = roots[1]
+        hi[3] = roots[3]
+
+
 @entry('bisect', ['nd_f8', 'nd_strided'])
 def _e_bisect(spec, rs, variant):
     from copulas.optimize import bisect
@@ -385,6 +397,7 @@ def _e_bisect(spec, rs, variant):
     roots = rs.uniform(-1, 1, size=k)
     lo = vec(rs, k, variant, -5.0, -2.0)
     hi = vec(rs, k, variant, 2.0, 5.0)
+    _roots_at_ends(spec, roots, lo, hi)
     return (lambda a, b: bisect(lambda x: (x - roots) ** 3 + (x - roots), a, b)), (lo, hi), {}, None
 
 
@@ -395,6 +408,7 @@ def _e_chandrupatla(spec, rs, variant):
     roots = rs.uniform(-1, 1, size=k)
     lo = vec(rs, k, variant, -5.0, -2.0)
     hi = vec(rs, k, variant, 2.0, 5.0)
+    _roots_at_ends(spec, roots, lo, hi)
     return (lambda a, b: chandrupatla(lambda x: np.tanh(x - roots), a, b)), (lo, hi), {}, None
 
 
@@ -414,9 +428,11 @@ def _e_datasets(spec, rs, variant):
     return getattr(datasets, name), (int(spec.get('size', 12)), int(spec.get('dseed', 3))), {}, None
 
 
-def _viz_frames(rs, d, n=12, index='range', ties=False, int_real=False):
-    real = pd.DataFrame(rs.normal(size=(n, d)), columns=['a', 'b', 'c', 'e'][:d])
-    synth = pd.DataFrame(rs.normal(size=(n + 3, d)) + 1.0, columns=['a', 'b', 'c', 'e'][:d])
+def _viz_frames(rs, d, n=12, index='range', ties=False, int_real=False, labels='str'):
+    # 'int': the labels of a frame made from an ndarray (0, 1, 2, ...)
+    names = ['a', 'b', 'c', 'e'][:d] if labels != 'int' else list(range(d))
+    real = pd.DataFrame(rs.normal(size=(n, d)), columns=names)
+    synth = pd.DataFrame(rs.normal(size=(n + 3, d)) + 1.0, columns=names)
     if int_real:
         # the real table holds integer columns (ages, counts), the synthetic one floats
         real = (real * 10).round().astype('int64')
@@ -455,16 +471,28 @@ def _rows(df, cols):
     return sorted(tuple(float(v) for v in row) for row in df[cols].to_numpy())
 
 
+def _pick_columns(spec, frame, dims):
+    """The requested columns: the frame's last ones, those reversed, or any of the frame's
+    labels in any order."""
+    cols = list(frame.columns[-dims:])
+    if spec.get('reverse_columns'):
+        cols = cols[::-1]                 # requested order differs from the frame's order
+    pick = spec.get('col_pick')
+    if pick is not None:
+        import itertools
+        perms = list(itertools.permutations(list(frame.columns), dims))
+        cols = list(perms[pick % len(perms)])
+    return cols
+
+
 @entry('viz.scatter', ['2d_columns', '2d_nocolumns', '3d_columns', '3d_nocolumns'])
 def _e_scatter(spec, rs, variant):
     from copulas import visualization as viz
     dims = 2 if variant.startswith('2d') else 3
     with_cols = variant.endswith('_columns')
     real, _ = _viz_frames(rs, dims + (1 if with_cols else 0), index=spec.get('index', 'range'),
-                          ties=spec.get('ties', False))
-    cols = list(real.columns[-dims:]) if with_cols else None
-    if cols and spec.get('reverse_columns'):
-        cols = cols[::-1]                 # requested order differs from the frame's order
+                          ties=spec.get('ties', False), labels=spec.get('labels', 'str'))
+    cols = _pick_columns(spec, real, dims) if with_cols else None
     fn = viz.scatter_2d if dims == 2 else viz.scatter_3d
     want_cols = list(cols) if cols else list(real.columns[:dims])
 
@@ -480,10 +508,9 @@ def _e_compare(spec, rs, variant):
     with_cols = variant.endswith('_columns')
     real, synth = _viz_frames(rs, dims + (1 if with_cols else 0),
                               index=spec.get('index', 'range'), ties=spec.get('ties', False),
-                              int_real=spec.get('int_real', False))
-    cols = list(real.columns[-dims:]) if with_cols else None
-    if cols and spec.get('reverse_columns'):
-        cols = cols[::-1]
+                              int_real=spec.get('int_real', False),
+                              labels=spec.get('labels', 'str'))
+    cols = _pick_columns(spec, real, dims) if with_cols else None
     fn = viz.compare_2d if dims == 2 else viz.compare_3d
     want_cols = list(cols) if cols else list(real.columns[:dims])
 
@@ -518,7 +545,10 @@ def _rand_spec(rng):
             'dataset': rng.choice(['sample_bivariate_age_income', 'sample_trivariate_xyz',
                                    'sample_univariate_bimodal', 'sample_univariates',
                                    'sample_univariate_degenerate']),
-            'size': rng.choice([1, 5, 30]), 'dseed': rng.randrange(1000)}
+            'size': rng.choice([1, 5, 30]), 'dseed': rng.randrange(1000),
+            'root_at': rng.choice([None, 'lower', 'upper', 'both']),
+            'labels': rng.choice(['str', 'int']),
+            'col_pick': rng.choice([None, rng.randrange(24)])}
 
 
 def generate(rng, tier, idx):
@@ -539,7 +569,10 @@ def fixed_runs(tier):
                                   'index': ['range', 'filtered', 'shifted', 'labels'][len(runs) % 4],
                                   'reverse_columns': len(runs) % 2 == 1,
                                   'ties': len(runs) % 3 == 0, 'int_real': len(runs) % 5 == 0,
-                                  'selection_sample_size': len(runs) % 2 == 0},
+                                  'selection_sample_size': len(runs) % 2 == 0,
+                                  'root_at': [None, 'lower', 'upper', 'both'][len(runs) % 4],
+                                  'labels': ['str', 'int'][(len(runs) // 2) % 2],
+                                  'col_pick': [None, 1, 2, 3, 5][len(runs) % 5]},
                          'seed': 100 + len(runs), 'readonly': False, 'ops': []})
     return runs
 
